@@ -156,7 +156,9 @@ def cases(tier):
             yield ('apply_pool', cname, i, tier)
     for op in range(len(BATCH_CASES)):
         yield ('batch', op, tier)
-    yield ('zip', tier)
+    for w in sc['workers']:
+        if w > 1:
+            yield ('zip', tier, w)
     yield ('real-threads', tier)
     yield ('real-processes', tier)
     yield ('executor-selftest', tier)
@@ -294,16 +296,16 @@ def run_batch(case, ctx):
 
 def run_zip(case, ctx):
     '''multi-worker reading and writing of zipped stores under every completion order'''
-    _, tier = case
+    tier = case[1]
     sc = scope(tier)
     frames = b_frames(3) + [sf.Frame.from_records([['x', True]], index=('z',), columns=('s', 't'), name='g')]
     frames_h = frames + [sf.Frame.from_records([[1, 2], [3, 4]], index=sf.IndexHierarchy.from_labels([('a', 1), ('b', 2)]), columns=('p', 'q'), name='h')]
-    ref_path = os.path.join(workdir(), 'c18_ref.zip')
+    ref_path = os.path.join(workdir(), 'c18_ref_%s.zip' % (case[2] if len(case) > 2 else 'all'))
     sf.Bus.from_frames(frames).to_zip_pickle(ref_path)
     seq = outcome(lambda: tuple((k, snap(v)) for k, v in sf.Bus.from_zip_pickle(ref_path).items()))
     undo = sched.install(MODS)
     try:
-        for workers, chunk in itertools.product([w for w in sc['workers'] if w > 1], sc['chunks']):
+        for workers, chunk in itertools.product([w for w in sc['workers'] if w > 1 and (len(case) < 3 or w == case[2])], sc['chunks']):
             cfg = sf.StoreConfig(read_max_workers=workers, read_chunksize=chunk, write_max_workers=workers, write_chunksize=chunk)
             info = dict(max_workers=workers, chunksize=chunk)
             for fmt, to, frm in (('zip_pickle', 'to_zip_pickle', 'from_zip_pickle'), ('zip_csv', 'to_zip_csv', 'from_zip_csv'), ('zip_csv-per-label-config', 'to_zip_csv', 'from_zip_csv')):
@@ -313,7 +315,7 @@ def run_zip(case, ctx):
                     mk = lambda d: sf.StoreConfig(index_depth=d, read_max_workers=workers, read_chunksize=chunk, write_max_workers=workers, write_chunksize=chunk)
                     cfgm = sf.StoreConfigMap({f.name: mk(f.index.depth) for f in frames_h}, default=mk(1))
                 base = None
-                wp = os.path.join(workdir(), f'c18_w_{fmt}.zip')
+                wp = os.path.join(workdir(), f'c18_w_{fmt}_{workers}.zip')
 
                 def write_then_read():
                     if os.path.exists(wp):
